@@ -359,6 +359,10 @@ class World:
             return 1000 + 10 * (k // self.ts_g)
         return 1000 if self.ts_mode == 'const' else 1000 + 10 * k
 
+    def concrete_bytes(self, aev, k):
+        from .encode import kd_buf
+        return kd_buf(self.ts(k), aev.words or (0, 0, 0, 0), aev.ctid, aev.debugid, data=aev.data)
+
     def concrete(self, aev, k):
         return make_event(self.ts(k), aev.debugid, aev.ctid, aev.words or (0, 0, 0, 0), aev.data)
 
@@ -471,19 +475,9 @@ def _run_gen(world, stream, parser=None, log=None, render=True):
     conc = [world.concrete(a, k + 1) for k, a in enumerate(stream)]
     ident = {id(e): k + 1 for k, e in enumerate(conc)}
     ex.concrete = conc
-    for k, (a, e) in enumerate(zip(stream, conc), 1):
-        del log[:]
-        try:
-            r = p.feed(e)
-        except Exception as exn:
-            ex.steps.append({'emit': False, 'err': 'feed:' + type(exn).__name__})
-            if a.abs.get('ood'):
-                yield k           # a decoder refused an out-of-domain argument: the caller catches it and goes on feeding
-                continue
-            ex.error = (k, repr(exn))
-            break
-        yield k
-        step = {'emit': r is not None, 'eff': project_eff(world, log)}
+    def finish(k, r, eff_log):
+        """the step record of event k given what came out of it; returns False when the run must stop"""
+        step = {'emit': r is not None, 'eff': project_eff(world, eff_log)}
         if r is not None:
             try:
                 win = [ident.get(id(x), -1) for x in r.ktraces]
@@ -498,11 +492,58 @@ def _run_gen(world, stream, parser=None, log=None, render=True):
                     ex.texts.append((k, txt))
                 ex.traces.append((k, r))
             except Exception as exn:
-                step = {'emit': True, 'err': 'render:' + type(exn).__name__}
-                ex.steps.append(step)
+                ex.steps.append({'emit': True, 'err': 'render:' + type(exn).__name__})
                 ex.error = (k, repr(exn))
-                break
+                return False
         ex.steps.append(step)
+        return True
+
+    pieces = getattr(world, 'feed_pieces', False) and not any(a.abs.get('ood') for a in stream)
+    if pieces:
+        # the stream handed over in consecutive PIECES, each through TracesParser.feed_generator (one result generator per
+        # buffer the caller drains): the parser object is the same, nothing it remembers may be lost between two pieces
+        k = 0
+        while k < len(conc) and ex.error is None:
+            n = world.rnd.choice([1, 2, 3, 5, 8])
+            piece = list(enumerate(conc[k:k + n], k + 1))
+            k += n
+            marks = []
+            del log[:]
+
+            def it(piece=piece, marks=marks):
+                for kk, e in piece:
+                    marks.append((kk, len(log)))
+                    yield e
+            try:
+                trs = list(p.feed_generator(it()))
+            except Exception as exn:
+                kk = marks[-1][0] if marks else piece[0][0]
+                while len(ex.steps) < kk - 1:
+                    ex.steps.append({'emit': False, 'eff': []})
+                ex.steps.append({'emit': False, 'err': 'feed:' + type(exn).__name__})
+                ex.error = (kk, repr(exn))
+                break
+            yield k
+            by_last = {ident.get(id(t.ktraces[-1]), -1): t for t in trs}
+            snapshot = list(log)
+            for idx, (kk, start) in enumerate(marks):
+                end = marks[idx + 1][1] if idx + 1 < len(marks) else len(snapshot)
+                if not finish(kk, by_last.get(kk), snapshot[start:end]):
+                    break
+    for k, (a, e) in (() if pieces else enumerate(zip(stream, conc), 1)):
+        del log[:]
+        try:
+            r = p.feed(e)
+        except Exception as exn:
+            ex.steps.append({'emit': False, 'err': 'feed:' + type(exn).__name__})
+            if a.abs.get('ood'):
+                yield k           # a decoder refused an out-of-domain argument: the caller catches it and goes on feeding
+                continue
+            ex.error = (k, repr(exn))
+            break
+        yield k
+        if not finish(k, r, log):
+            break
     # nothing already reported may be changed later: every trace must still render as it did when it was emitted
     if render and ex.error is None:
         at_emit = dict(ex.texts)
